@@ -55,6 +55,12 @@ def _build(cfg):
         bus.memory_map = mm
         if s.get("align_to") is not None:
             dec.align_to(s["align_to"])
+        if s.get("inspect_before"):
+            # the partly built decoder is looked at (patterns listed, elaborated) after the cursor was moved and before
+            # the next subordinate is placed - possibly BELOW the cursor, ending exactly at it
+            from amaranth.hdl import Fragment
+            list(dec.bus.memory_map.window_patterns())
+            Fragment.get(dec, None)
         bus._verif_range = dec.add(bus, name=(f"w{i}" if s.get("named") else None), addr=s.get("addr"))
         subs.append(bus)
         if cfg.get("staged") == i + 1:
@@ -100,7 +106,7 @@ def configs(tier, seed):
     tries = 0
     while len(out) < want and tries < want * 20:
         tries += 1
-        aw = rnd.randint(3, 7 if tier == "quick" else 9) if tries % 25 else rnd.choice([12, 16])
+        aw = rnd.randint(3, 7 if tier == "quick" else 9) if tries % 25 else rnd.choice([12, 16, 60, 64])
         cfg = {"aw": aw, "dw": rnd.choice([8, 16]), "align": rnd.choice([0, 0, 0, 1, 2, 3]), "subs": [],
                "rejected": rnd.random() < 0.3, "staged": rnd.choice([None, None, 1, 2]), "shared_map": tries % 5 == 2,
                "names": {3: "same", 5: "none"}.get(tries % 7),
@@ -125,6 +131,22 @@ def configs(tier, seed):
         out.append({"aw": aw, "dw": dw, "align": 0, "subs": [{"aw": aw, "named": bool(aw % 2), "res": True}]})
         if aw > 1:
             out.append({"aw": aw, "dw": dw, "align": 0, "subs": [{"aw": aw - 2, "named": False, "res": True, "addr": 1 << (aw - 1)}]})
+    # the cursor is moved past free space, the decoder is inspected, and the next subordinate goes BELOW the cursor,
+    # ending exactly at it (nothing about the map's "next address" changes with that add)
+    out.append({"aw": 5, "dw": 8, "align": 0, "subs": [{"aw": 2, "named": False, "res": True},
+                                                        {"aw": 2, "named": True, "res": True, "align_to": 4, "inspect_before": True, "addr": 12}]})
+    out.append({"aw": 6, "dw": 16, "align": 0, "subs": [{"aw": 1, "named": True, "res": True},
+                                                         {"aw": 3, "named": False, "res": True, "align_to": 5, "inspect_before": True, "addr": 24},
+                                                         {"aw": 2, "named": False, "res": True, "inspect_before": True, "addr": 8}]})
+    # many subordinates (counts that are not a multiple of 2, 4 or 8: a fan-in folded in groups has a partial group)
+    for count in ((19,) if tier == "quick" else (17, 19, 23, 37)):
+        out.append({"aw": 9, "dw": 8, "align": 0,
+                    "subs": [{"aw": 1 + (i % 3), "named": bool(i % 2), "res": True} for i in range(count)]})
+    # small windows high up in a very wide address space (their base has more significant bits than a float carries)
+    for aw in (58, 64):
+        out.append({"aw": aw, "dw": 8, "align": 0,
+                    "subs": [{"aw": aw - 1, "named": False, "res": True}] +
+                            [{"aw": 4, "named": bool(i % 2), "res": True} for i in range(5)]})
     return out + flat_configs(tier, seed)
 
 
